@@ -297,7 +297,7 @@ def registered(kind: str):
 # --------------------------------------------------------------------------------------------
 # raster files for the input section
 # --------------------------------------------------------------------------------------------
-def write_tif(path, data, descriptions=None):
+def write_tif(path, data, descriptions=None, nodata=None):
     """data: (count, rows, cols) float32 array"""
     import rasterio
 
@@ -307,7 +307,8 @@ def write_tif(path, data, descriptions=None):
     with warnings.catch_warnings():
         warnings.simplefilter("ignore")
         with rasterio.open(
-            path, "w", driver="GTiff", height=data.shape[1], width=data.shape[2], count=data.shape[0], dtype="float32"
+            path, "w", driver="GTiff", height=data.shape[1], width=data.shape[2], count=data.shape[0], dtype="float32",
+            **({"nodata": nodata} if nodata is not None else {})
         ) as dst:
             dst.write(data)
             if descriptions:
@@ -324,17 +325,22 @@ class FileSet:
         self.info = {}
         rng = np.random.RandomState(7)
 
-        def add(name, count, rows, cols, descriptions=None, min_gt_max=False, grid=False):
+        def add(name, count, rows, cols, descriptions=None, min_gt_max=False, grid=False, nodata_tag=None):
             path = os.path.join(root, name)
             if grid:
                 lo = np.full((rows, cols), -2.0, dtype=np.float32)
                 hi = np.full((rows, cols), 2.0, dtype=np.float32)
-                if min_gt_max:
+                if min_gt_max and nodata_tag is None:
                     lo[rows // 2, cols // 2] = 3.0
+                if min_gt_max and nodata_tag is not None:
+                    # the only cells with min > max hold the file's declared nodata value: Pandora reads the grids raw,
+                    # so this is still a malformed grid
+                    hi[rows // 2, cols // 2] = nodata_tag
+                    hi[0, 0] = nodata_tag
                 data = np.stack([lo, hi] + [hi] * (count - 2))[:count]
             else:
                 data = rng.randint(0, 20, size=(count, rows, cols)).astype(np.float32)
-            write_tif(path, data, descriptions)
+            write_tif(path, data, descriptions, nodata=nodata_tag)
             self.info[path] = {
                 "width": cols,
                 "height": rows,
@@ -356,6 +362,8 @@ class FileSet:
         self.grid_a = add("grid_a.tif", 2, 5, 6, grid=True)
         self.grid_a_right = add("grid_a_right.tif", 2, 5, 6, grid=True)
         self.grid_bad = add("grid_bad.tif", 2, 5, 6, grid=True, min_gt_max=True)
+        self.grid_bad_nodata = add("grid_bad_nodata.tif", 2, 5, 6, grid=True, min_gt_max=True, nodata_tag=-9999.0)
+        self.grid_ok_nodata = add("grid_ok_nodata.tif", 2, 5, 6, grid=True, nodata_tag=-9999.0)
         self.grid_b = add("grid_b.tif", 2, 4, 6, grid=True)
         self.grid_1band = add("grid_1.tif", 1, 5, 6)
         self.grid_3band = add("grid_3.tif", 3, 5, 6, grid=True)
